@@ -429,6 +429,7 @@ class PathSummary:
         self.final = {}
         self.links = []
         self.rels = {}
+        self.sides = {}
 
     def input(self, key, default=None):
         for k, v in self.inputs:
@@ -610,7 +611,22 @@ class Interp:
         if k == "adt":
             p = t["p"]
             if p == OPTION:
-                st = self.choose("opt:" + name, ["N", "S"])
+                opts_ = ["N", "S"]
+                db = getattr(self, "depth_bound", None)
+                if db is not None and cell is not None and cell.watch and cell.watch[0] == "node" and cell.watch[3] in ("left", "right"):
+                    tbl, root, h = db
+                    key = cell.watch[2]
+                    if cell.watch[1].name == tbl and key.startswith(root) and key[len(root):].count(".") >= h:
+                        opts_ = ["N"]   # bounded sub-tree: nothing below this level
+                if db is not None and cell is not None and cell.watch and cell.watch[0] == "node" and cell.watch[3] == "value":
+                    tbl, root, h = db
+                    key = cell.watch[2]
+                    if cell.watch[1].name == tbl and key.startswith(root) and key != root and key in cell.watch[1].nodes:
+                        nd = cell.watch[1].nodes[key].value
+                        l_, r_ = nd.fields["left"].value, nd.fields["right"].value
+                        if self.presence(l_) == "N" and self.presence(r_) == "N":
+                            opts_ = ["S"]   # bounded sub-tree: no value-less leaves below the start node
+                st = self.choose("opt:" + name, opts_)
                 if st == "N":
                     return StructV(OPTION, "None", {})
                 inner_ty = t["a"][0]
@@ -689,8 +705,14 @@ class Interp:
                 # holds no value
                 cell.value = StructV(OPTION, "None", {})
             old = self.force(cell)
-            po, pn = self.presence(old), self.presence(self.val_force(val))
-            self.emit("value_write", table=arena.name, node=key, old=po, new=pn)
+            nv = self.val_force(val)
+            po, pn = self.presence(old), self.presence(nv)
+            payload = None
+            if pn == "S":
+                pv = nv.fields["0"].value
+                payload = pv.name if isinstance(pv, (UnkV, SymV)) else repr(pv)
+                nv.fields["0"].name = cell.name + ".some"   # the payload now lives in this node
+            self.emit("value_write", table=arena.name, node=key, old=po, new=pn, payload=payload)
         elif fname in ("left", "right"):
             new = self.val_force(val)
             if isinstance(cell.value, UnkV) and arena.stale(key):
@@ -769,6 +791,14 @@ class Interp:
             return False
         if b == "zero()" and r[0] not in (EQ, SUB):
             return False
+        # side consistency (S2): if X ⊋ a on side s and the side of b under X is known to differ, a cannot cover b
+        for (x, y), sd in list(self.sides.items()):
+            if y == a and r[0] in (EQ, SUP) and (x, b) in self.sides and self.sides[(x, b)] != sd \
+                    and self.rels.base(x, a) == SUP and self.rels.base(x, b) in (SUP, None):
+                return False
+            if y == b and r[0] in (EQ, SUB) and (x, a) in self.sides and self.sides[(x, a)] != sd \
+                    and self.rels.base(x, b) == SUP and self.rels.base(x, a) in (SUP, None):
+                return False
         ax = self.axioms.get("rel")
         if ax is not None:
             ok = ax(self, a, b, r)
@@ -1419,6 +1449,7 @@ def explore(facts, entry, make_args=None, opts=None, max_paths=20000, program=No
             s.final = it.snapshot()
             s.links = it.link_audit()
             s.rels = {k: v[0] for k, v in it.rels.rel.items()}
+            s.sides = dict(it.sides)
             s.interp = None
         except Exception as ex:  # snapshot is best effort
             s.final = {"error": str(ex)}
